@@ -415,6 +415,14 @@ fn c11_scenario_x(name: &'static str, progs: Vec<Vec<COp>>, abandon: bool) -> Sc
     })
 }
 
+/// A subscription deleted and created again under the same name while messages are published: shared with C01 (the
+/// re-created subscription must be attached: a probe publish reaches every subscription that exists).
+pub fn recreate_unit(thorough: bool) -> Unit {
+    use COp::*;
+    let p = vec![vec![DeleteSub(S0)], vec![CreateSub(S0, T0), CreateSub(S0, T0)], vec![Publish(T0, 1)]];
+    explore_unit("sched/delete-sub‖create-sub-same-name", format!("{:?}; afterwards every subscription that exists is listed by its topic and receives a probe message", p), Bounds::new(if thorough { 4 } else { 3 }), ExecCfg::default(), c11_scenario("delete-sub‖create-sub-same-name", p))
+}
+
 pub fn c11_sched(thorough: bool) -> Vec<Unit> {
     use COp::*;
     let d = if thorough { 4 } else { 3 };
